@@ -331,6 +331,30 @@ class DriverError(RuntimeError):
     pass
 
 
+DRIVER_DEAD = None            # set to a reason once the model driver failed to answer in this run
+_GENERATED_CHANGED = None
+
+
+def generated_digests():
+    import hashlib
+    d = os.path.join(LEAN_DIR, "Pyab", "Generated")
+    return {f: hashlib.sha256(open(os.path.join(d, f), "rb").read()).hexdigest() for f in sorted(os.listdir(d)) if f.endswith(".lean")}
+
+
+def generated_changed():
+    """True when the tables regenerated from the source on this run differ from the ones committed for the unchanged tree
+    (harness/generated_baseline.json, written by tools/make_manifest.py): the model the driver runs is then a model of CHANGED code,
+    and a driver that no longer answers is a broken correspondence rather than a failure of the infrastructure."""
+    global _GENERATED_CHANGED
+    if _GENERATED_CHANGED is None:
+        try:
+            base = json.load(open(os.path.join(VERIF, "harness", "generated_baseline.json")))
+            _GENERATED_CHANGED = generated_digests() != base
+        except (OSError, ValueError):
+            _GENERATED_CHANGED = False
+    return _GENERATED_CHANGED
+
+
 def driver_available():
     return os.path.exists(DRIVER)
 
@@ -346,8 +370,21 @@ def run_driver(requests, timeout=600):
     else:  # fallback: interpreter
         cmd = ["lake", "env", "lean", "--run", "Driver.lean"]
         cwd = LEAN_DIR
-    p = subprocess.run(cmd, input=data.encode("utf-8"), stdout=subprocess.PIPE, stderr=subprocess.PIPE,
-                       cwd=cwd, timeout=timeout)
+    global DRIVER_DEAD
+    if DRIVER_DEAD:
+        raise DriverError("the model driver failed earlier in this run: " + DRIVER_DEAD)
+    if generated_changed():
+        # a model regenerated from changed code may not terminate in reasonable time (a regular expression that backtracks
+        # exponentially, a grammar table that loops): batches that take seconds on the unchanged tree get two minutes
+        timeout = min(timeout, int(os.environ.get("VERIF_CHANGED_DRIVER_TIMEOUT", "120")))
+    try:
+        p = subprocess.run(cmd, input=data.encode("utf-8"), stdout=subprocess.PIPE, stderr=subprocess.PIPE,
+                           cwd=cwd, timeout=timeout)
+    except subprocess.TimeoutExpired:
+        if not generated_changed():
+            raise
+        DRIVER_DEAD = f"no answer to a batch of {len(requests)} requests within {timeout} s"
+        raise DriverError(DRIVER_DEAD)
     if p.returncode != 0:
         raise DriverError(f"driver exit {p.returncode}: {p.stderr.decode('utf-8', 'replace')[:2000]}")
     lines = p.stdout.decode("utf-8").split("\n")
